@@ -141,6 +141,17 @@ pub assume_specification [<Bytes as core::ops::Deref>::deref] (b: &Bytes) -> (r:
 pub assume_specification [revm_primitives::alloy_primitives::bytes::Bytes::len] (b: &revm_primitives::alloy_primitives::bytes::Bytes) -> (r: usize)
     ensures r == raw_bytes_len(*b);
 
+/// the byte string itself (`&Bytes` coerces to `&[u8]` through alloy's and bytes' Deref)
+pub uninterp spec fn bytes_view(b: Bytes) -> Seq<u8>;
+pub uninterp spec fn raw_bytes_view(b: revm_primitives::alloy_primitives::bytes::Bytes) -> Seq<u8>;
+#[verifier::external_body]
+pub broadcast proof fn axiom_bytes_deref_view(b: Bytes)
+    ensures #[trigger] raw_bytes_view(bytes_deref(b)) == bytes_view(b), bytes_view(b).len() == bytes_len(b),
+{
+}
+pub assume_specification [<revm_primitives::alloy_primitives::bytes::Bytes as core::ops::Deref>::deref] (b: &revm_primitives::alloy_primitives::bytes::Bytes) -> (r: &[u8])
+    ensures r@ == raw_bytes_view(*b);
+
 /// i-th byte of a fixed byte string (`FixedBytes<N>` derives Index from its `[u8; N]`)
 pub uninterp spec fn fb_index<IdxT, const N: usize>(b: FixedBytes<N>, i: IdxT) -> &'static <FixedBytes<N> as core::ops::Index<IdxT>>::Output
     where [u8; N]: core::ops::Index<IdxT>;
@@ -168,6 +179,23 @@ pub assume_specification [Bytecode::is_empty] (b: &Bytecode) -> (r: bool)
 pub assume_specification [Bytecode::is_eip7702] (b: &Bytecode) -> (r: bool)
     ensures r == bc_is_eip7702(*b);
 
+// ---- database trait and the error type of the handlers ---------------------------------------------
+// (requires in scope: revm_primitives::{db::Database, EVMError})
+#[verifier::external_trait_specification]
+pub trait ExDatabase {
+    type ExternalTraitSpecificationFor: Database;
+    type Error;
+}
+#[verifier::external_type_specification]
+#[verifier::reject_recursive_types(DBError)]
+pub struct ExEVMError<DBError>(EVMError<DBError>);
+
+// result.rs: `impl<DBError> From<InvalidTransaction> for EVMError<DBError> { Self::Transaction(value) }` (and Header)
+pub assume_specification<DBError> [<EVMError<DBError> as core::convert::From<InvalidTransaction>>::from] (value: InvalidTransaction) -> (r: EVMError<DBError>)
+    ensures r == EVMError::<DBError>::Transaction(value);
+pub assume_specification<DBError> [<EVMError<DBError> as core::convert::From<InvalidHeader>>::from] (value: InvalidHeader) -> (r: EVMError<DBError>)
+    ensures r == EVMError::<DBError>::Header(value);
+
 pub broadcast group group_env {
-    axiom_ord_le_uint, axiom_ru_from_val_uint, axiom_ru_from_val_u128, axiom_bytes_deref_len, axiom_fixed_bytes_index_req,
+    axiom_ord_le_uint, axiom_ru_from_val_uint, axiom_ru_from_val_u128, axiom_bytes_deref_len, axiom_bytes_deref_view, axiom_fixed_bytes_index_req,
 }
